@@ -286,6 +286,16 @@ func (c *Ctx) runBest(prefix string, pkgs []*packages.Package, fileOK func(fn *s
 					}
 				}
 			}
+			if !cmp {
+				if ok, wrong := pairwiseBetter(e.val); ok {
+					if wrong {
+						c.bad(prefix+".CMP", key, e.ins.Pos(), "the sample is compared with another sample, but the merge keeps the one the comparison found worse")
+						continue
+					}
+					c.ok(prefix+".CMP", key, e.ins.Pos(), "the sample is compared with another sample and the merge keeps the better of the two")
+					continue
+				}
+			}
 			switch {
 			case cmp:
 				c.ok(prefix+".CMP", key, e.ins.Pos(), "the sample is compared with the running optimum, which takes it when it is better")
@@ -419,4 +429,68 @@ func asInstr(v ssa.Value) ssa.Instruction {
 		return i
 	}
 	return nil
+}
+
+// pairwiseBetter: v flows into a two-way merge phi(v, w) that is controlled by
+// a comparison of exactly v and w (value, other := coarse(); if fine > value {
+// value = fine }). ok: the shape is present; wrong: the merge takes the operand
+// the comparison found smaller.
+func pairwiseBetter(v ssa.Value) (ok, wrong bool) {
+	for _, ref := range *v.Referrers() {
+		phi, isPhi := ref.(*ssa.Phi)
+		if !isPhi {
+			continue
+		}
+		// exactly two distinct incoming values: v and one other
+		var w ssa.Value
+		two := true
+		for _, e := range phi.Edges {
+			if e == v {
+				continue
+			}
+			if w != nil && w != e {
+				two = false
+			}
+			w = e
+		}
+		if !two || w == nil {
+			continue
+		}
+		for _, r2 := range *v.Referrers() {
+			cmp, isCmp := r2.(*ssa.BinOp)
+			if !isCmp {
+				continue
+			}
+			var greaterIfTrue ssa.Value
+			switch {
+			case (cmp.Op == token.GTR || cmp.Op == token.GEQ) && cmp.X == v && cmp.Y == w:
+				greaterIfTrue = v
+			case (cmp.Op == token.GTR || cmp.Op == token.GEQ) && cmp.X == w && cmp.Y == v:
+				greaterIfTrue = w
+			case (cmp.Op == token.LSS || cmp.Op == token.LEQ) && cmp.X == v && cmp.Y == w:
+				greaterIfTrue = w
+			case (cmp.Op == token.LSS || cmp.Op == token.LEQ) && cmp.X == w && cmp.Y == v:
+				greaterIfTrue = v
+			default:
+				continue
+			}
+			// the If on this comparison and the edge of the phi it controls
+			for _, r3 := range *cmp.Referrers() {
+				ifi, isIf := r3.(*ssa.If)
+				if !isIf {
+					continue
+				}
+				b := ifi.Block()
+				yes := b.Succs[0]
+				for i, pred := range phi.Block().Preds {
+					onTrue := (pred == b && phi.Block() == yes) || pred == yes || (yes.Dominates(pred) && yes != phi.Block())
+					if onTrue && len(yes.Preds) == 1 {
+						return true, phi.Edges[i] != greaterIfTrue
+					}
+				}
+				return true, false
+			}
+		}
+	}
+	return false, false
 }
